@@ -342,7 +342,14 @@ class BayesianNetwork(DAG):
             # Node names can be any hashable object (e.g. tuples), not only str or int.
             if not isinstance(cpd, BaseFactor):
                 cpd = self.get_cpds(cpd)
-            self.cpds.remove(cpd)
+            # Remove this very object when it is in the list: list.remove compares by value
+            # and would drop an earlier CPD that happens to be equal.
+            for index, existing in enumerate(self.cpds):
+                if existing is cpd:
+                    del self.cpds[index]
+                    break
+            else:
+                self.cpds.remove(cpd)
 
     def get_cardinality(self, node=None):
         """
